@@ -23,8 +23,11 @@ PROP = dict(
                  "keys (character key code, Shift at most and never on Space, no Ctrl, no NumLock); keypad keys (NumLock "
                  "modifier) are passed verbatim in either form (numlock_key_verbatim) and are outside the statement",
                  "the whole-key theorems for the non-empty buffer and for the toggles assume the buffer is within "
-                 "auto_commit_threshold (C05 bounded_after_key: it is after every handled key); the state-machine-step "
-                 "versions (eng_key_inserts_dispatch, capslock_dispatch) need no such assumption",
+                 "auto_commit_threshold; the *_linked versions do not: in state Entering the bound is an invariant of every key "
+                 "history (buffer_bounded_along) for every environment satisfying C01's EnvOK, from C01's reachable-state "
+                 "invariant; in the other states the buffer may exceed the threshold until the state returns to Entering "
+                 "(simple engine: a typed syllable opens its list first; fuzzy input inserts while phonetic keys are pending); the "
+                 "state-machine-step versions (eng_key_inserts_dispatch, capslock_dispatch) need no assumption at all",
                  "Chinese mode: the theorems cover the toggles and the option frame; the character rule is evaluated by the "
                  "oracle for shifted letters (the branch shared with English mode)"],
 )
@@ -40,7 +43,13 @@ MANIFEST = dict(
          "cursor, cursor + 1, nothing else moves, nothing committed). Toggles: capslock_toggles_lang / capslock_dispatch in "
          "all four states (language mode flipped, no other option changed, symbols, gaps and selections exactly as before), "
          "shiftspace_toggles_form, shiftspace_disabled, form_fixed_outside_entering, options_change_only_by_toggle (no other "
-         "key in any state changes any of the 14 options), setOptions_preserves_buffer. Chinese mode, the branches sharing the tables: chinese_shifted_letter (same behaviour as "
+         "key in any state changes any of the 14 options), setOptions_preserves_buffer. Linked (round 2, Proofs/EditorLink.lean): "
+         "bounded_after_key_linked (C05's bound with C01's invariant in place of the tiling premise, all four states), "
+         "bounded_step / buffer_bounded_along / buffer_bounded_fresh (EditorInv + 'len <= auto_commit_threshold in Entering' is an "
+         "invariant of every key history, which also runs to the end), and the whole-key theorems restated from it without a "
+         "premise on the buffer length: capslock_toggles_lang_linked, shiftspace_toggles_form_linked, eng_key_inserts_linked "
+         "(below the threshold: Absorb, exactly one character inserted at the cursor; AT the threshold: the character is "
+         "inserted, the buffer overflows by one and a non-empty leading part is pushed out, answered Commit). Chinese mode, the branches sharing the tables: chinese_shifted_letter (same behaviour as "
          "English mode), chinese_shifted_symbol (special symbols are inserted into the buffer in either form). Tie: translator for the symbol "
          "tables; exhaustive typed sweep of all 760 character cells through the real editor with per-step model "
          "correspondence, plus the property evaluated directly on the real editor by an oracle written from the statement "
